@@ -163,7 +163,7 @@ pub fn run(ctx: &Ctx) -> i32 {
   let quick = ctx.quick();
   let caps: Vec<usize> = vec![1, 2, 3, 4, 5, 8, 100];
   // --- push histories: all sequences over the alphabet up to length L
-  let (hist_depth, max_len): (u8, usize) = if quick { (2, 5) } else { (3, 5) };
+  let (hist_depth, max_len): (u8, usize) = if quick { (2, 5) } else { (3, 6) };
   let alpha = alphabet(hist_depth, quick);
   let na = alpha.len();
   // jobs: one per (first two symbols) prefix
